@@ -1,0 +1,8 @@
+//go:build verif
+
+package graphicsstate
+
+// Add-only exports for the verification harness (built only with -tags verif).
+
+// VerifStackLen is the number of graphics states saved by q and not yet restored.
+func VerifStackLen(gs *GraphicsState) int { return len(gs.stack) }
